@@ -75,9 +75,25 @@ def _dynamic_cases():
                 yield {'spec': sub, 'inputs': {'sub': dict(copy.deepcopy(value), q=1)}}
 
 
+def _validator_cases():
+    """Validators that reject with an empty message, and validators with the deprecated one-argument signature."""
+    for pv in ('neg_empty', 'legacy_nonneg'):
+        for nv in (None, 'legacy_has_a'):
+            for default in (None, ['plain', 1], ['callable', 2]):
+                tree = pm.ns({'p': pm.port(required=True, validator=pv, default=default), 'sub': pm.ns({'q': pm.port(required=False, validator=pv)}, validator=nv, required=False)})
+                for pval, sval in itertools.product(['<absent>', 1, -1, 's'], ['<absent>', {}, {'q': 1}, {'q': -2}, {'q': 1, 'a': 0}]):
+                    inputs = {}
+                    if pval != '<absent>':
+                        inputs['p'] = pval
+                    if sval != '<absent>':
+                        inputs['sub'] = sval
+                    yield {'spec': tree, 'inputs': inputs}
+
+
 def enumerate_cases(tier, scope):
     if scope == 'dynamic':
         yield from _dynamic_cases()
+        yield from _validator_cases()
         return
     pshapes = PORT_SHAPES if scope == 'two-level-wide' else PORT_SHAPES[::3]
     qshapes = PORT_SHAPES[::2] if scope == 'two-level-wide' else PORT_SHAPES[1::5]
@@ -114,7 +130,7 @@ def _valid_value(draw, tname, validator):
 @st.composite
 def _port(draw):
     tname = draw(st.sampled_from([None, None, 'int', 'str', 'num']))
-    validator = draw(st.sampled_from([None, None, 'nonneg', 'short', 'never', 'always']))
+    validator = draw(st.sampled_from([None, None, 'nonneg', 'short', 'never', 'always', 'neg_empty', 'legacy_nonneg']))
     default = None
     mode = draw(st.sampled_from([None, None, 'plain', 'callable', 'factory', 'partial']))
     if mode is not None and validator != 'never':
@@ -135,7 +151,7 @@ def _ns(draw, depth):
         required=draw(st.booleans()),
         dynamic=draw(st.booleans()),
         valid_type=draw(st.sampled_from([None, None, None, 'int', 'str', 'dict'])),
-        validator=draw(st.sampled_from([None, None, None, 'has_a', 'small', 'never'])),
+        validator=draw(st.sampled_from([None, None, None, 'has_a', 'small', 'never', 'legacy_has_a'])),
         populate_defaults=draw(st.booleans()),
     )
 
